@@ -7,16 +7,22 @@
 package ctxiso
 
 import (
+	"bufio"
 	"bytes"
 	"compress/gzip"
 	"compress/zlib"
 	"encoding/json"
 	"fmt"
 	"net"
+	"net/http"
+	"net/http/httptest"
 	"runtime"
 	"sort"
 	"strconv"
 	"strings"
+
+	"github.com/gofiber/fiber/v3"
+	"github.com/gofiber/fiber/v3/middleware/adaptor"
 
 	"verifharness/internal/drive"
 	"verifharness/internal/ev"
@@ -161,7 +167,7 @@ func genHistoryReq(r *gen.Rand, tag string, custom bool) wreq {
 		q.Other = "name=" + tag + "cn; tag=" + tag + "ct; n=" + gen.Pick(r, []string{"5", "x", ""})
 	}
 	kind := ""
-	switch r.PickW(14, 12, 14, 10, 10, 6, 4, 5, 5, 4, 4, 6, 6, 10, 10, 10, 8, 8) {
+	switch r.PickW(14, 12, 14, 10, 10, 6, 4, 5, 5, 4, 4, 6, 6, 10, 10, 10, 8, 8, 8) {
 	case 0:
 		kind = "many-params"
 		var sb strings.Builder
@@ -242,6 +248,13 @@ func genHistoryReq(r *gen.Rand, tag string, custom bool) wreq {
 		q.Target = "/locals/" + tag
 	case 13:
 		return genHalfBind(r, tag, q, class)
+	case 18:
+		kind = "mutate-returned-values"
+		q.Method = gen.Pick(r, []string{"GET", "GET", "POST"})
+		q.Target = "/mutate/" + tag + gen.Pick(r, []string{"", "", "?page=7", "?x=" + tag})
+		if q.Method == "POST" {
+			q.Body = []byte{}
+		}
 	case 17:
 		kind = "admin"
 		q.Target = gen.Pick(r, []string{"/admin/reports/" + tag, "/admin/reports/" + tag, "/admin/fail/" + tag, "/admin/nothing/" + tag})
@@ -495,8 +508,15 @@ func genProbeX(r *gen.Rand, forceClass string, xsrcSel string) probeSpec {
 	}
 	var qs []string
 	if r.Chance(1, 3) {
-		ps.Variant = gen.Pick(r, []string{"R", "R", "RB", "RR"})
+		ps.Variant = gen.Pick(r, []string{"R", "R", "RB", "RR", "RI", "RI"})
 		qs = append(qs, "variant="+ps.Variant)
+		if ps.Variant == "RI" {
+			// a form with one field: that is the input the redirect carries along
+			q.Method, q.CType, q.Body = "POST", "application/x-www-form-urlencoded", []byte("name="+tag+"input")
+			if ps.XSrc == "form" {
+				ps.XSrc = "query"
+			}
+		}
 		if ps.Variant == "RB" && r.Bool() {
 			q.Hdr = append(q.Hdr, [2]string{"Referer", "http://ref.example/" + tag})
 		}
@@ -743,6 +763,10 @@ type isoCase struct {
 	// have been served. The probe's response is larger than the server's write buffer, so part of
 	// it is still to be serialised at that moment.
 	WriteGate bool
+	// Adaptor: the app is not served by its own fasthttp server but mounted into a net/http server
+	// through middleware/adaptor.FiberApp: every request is an http.Request handed to that handler
+	// (sequentially, one goroutine). Requests that net/http cannot read are left out.
+	Adaptor bool
 	// Intruders (overlap cases): requests served on other connections while the probe, which
 	// carries hold=1, is parked inside its handler. The reference run parks and releases the
 	// probe with nothing in between.
@@ -754,10 +778,13 @@ func genIsoCase(r *gen.Rand) isoCase {
 	if r.Chance(1, 3) {
 		ic.HistRemote, ic.ProbeRemote = r.Intn(2), r.Intn(2)
 	}
+
 	if r.Chance(1, 12) {
 		ic.Probe = genFileProbe(r.Split(), r.Intn(nSendFileVariants))
 	} else if r.Chance(1, 8) {
 		ic.Probe = genEHProbe(r.Split(), ic.Cfg.Mount)
+	} else if r.Chance(1, 8) {
+		ic.Adaptor = true
 	}
 	return ic
 }
@@ -825,6 +852,10 @@ func judgeIso(e *ev.Env, c *ev.Case, ic isoCase) {
 		}
 	}
 
+	if ic.Adaptor {
+		judgeAdaptor(e, c, ic, probeReq)
+		return
+	}
 	// reference: the probe as first request of a fresh app
 	freshPools()
 	fapp, fs := isoBuild(ic.Cfg)
@@ -887,6 +918,11 @@ func judgeIso(e *ev.Env, c *ev.Case, ic isoCase) {
 		return d
 	}
 
+	compareIso(e, c, ic, detail, fsv, fs, hsv, hs)
+}
+
+// compareIso judges the two observations of the probe: on a fresh app (f…) and after the history (h…).
+func compareIso(e *ev.Env, c *ev.Case, ic isoCase, detail func(map[string]any) map[string]any, fsv served, fs *isoSink, hsv served, hs *isoSink) {
 	if ic.Probe.ViaEH {
 		// the ErrorHandler invoked last (the probe is the last request) is the observer
 		fs.vec, fs.probes, fs.reused = fs.ehVec, min(fs.ehCount, 1), fs.ehReused
@@ -995,6 +1031,95 @@ func judgeIso(e *ev.Env, c *ev.Case, ic isoCase) {
 				detail(map[string]any{"fresh": string(fsv.probeRaw), "after_history": string(hsv.probeRaw)}))
 		}
 	}
+}
+
+// serveAdaptor hands the requests one after the other to adaptor.FiberApp(app).
+func serveAdaptor(app *fiber.App, s *isoSink, reqs []wreq) served {
+	h := adaptor.FiberApp(app)
+	var sv served
+	for i, rq := range reqs {
+		hr, err := http.ReadRequest(bufio.NewReader(bytes.NewReader(rq.Raw)))
+		if err != nil {
+			if i == len(reqs)-1 {
+				sv.problem = "net/http cannot read the probe: " + err.Error()
+			}
+			continue // not a request a net/http server would pass on
+		}
+		// The adaptor copies the header fields in map order. Which of several scheme-forwarding
+		// headers wins in Scheme() depends on their order: keep one, so that the observation does
+		// not depend on that (per-call random) order.
+		kept := false
+		for _, n := range []string{"X-Forwarded-Proto", "X-Forwarded-Protocol", "X-Forwarded-Ssl", "X-Url-Scheme"} {
+			if hr.Header.Get(n) == "" {
+				continue
+			}
+			if kept {
+				hr.Header.Del(n)
+			}
+			kept = true
+		}
+		hr.RemoteAddr = "203.0.113.7:40000"
+		if rq.Remote == 1 {
+			hr.RemoteAddr = altPeerIP + ":40001"
+		}
+		s.reqSeq++
+		rec := httptest.NewRecorder()
+		h.ServeHTTP(rec, hr)
+		sv.responses++
+		if i == len(reqs)-1 {
+			res := rec.Result()
+			lr := &lresp{Status: res.StatusCode, Body: rec.Body.Bytes()}
+			names := make([]string, 0, len(res.Header))
+			for k := range res.Header {
+				names = append(names, k)
+			}
+			sort.Strings(names)
+			var raw bytes.Buffer
+			fmt.Fprintf(&raw, "HTTP/1.1 %d\r\n", res.StatusCode)
+			for _, k := range names {
+				for _, v := range res.Header[k] {
+					lr.Hdr = append(lr.Hdr, [2]string{k, v})
+					raw.WriteString(k + ": " + v + "\r\n")
+				}
+			}
+			raw.WriteString("\r\n")
+			raw.Write(lr.Body)
+			lr.Raw = raw.Bytes()
+			sv.probeResp, sv.probeRaw = lr, normDate(lr.Raw)
+		}
+	}
+	sv.conns = 0
+	return sv
+}
+
+func judgeAdaptor(e *ev.Env, c *ev.Case, ic isoCase, probeReq wreq) {
+	freshPools()
+	fapp, fs := isoBuild(ic.Cfg)
+	fs.reqSeq = 1000
+	fsv := serveAdaptor(fapp, fs, []wreq{probeReq})
+	freshPools()
+	happ, hs := isoBuild(ic.Cfg)
+	hs.reqSeq = 1000
+	script := append(append([]wreq(nil), ic.History...), probeReq)
+	hsv := serveAdaptor(happ, hs, script)
+	e.Eval(1)
+	e.Stat("requests", int64(len(script)+1))
+	e.Stat("adaptor_cases", 1)
+	detail := func(extra map[string]any) map[string]any {
+		d := map[string]any{"drive": "net/http -> middleware/adaptor.FiberApp", "cfg": ic.Cfg.String(), "probe": string(ic.Probe.Raw), "history_kinds": kindsOf(ic.History)}
+		if len(ic.History) <= 3 {
+			var hh []string
+			for _, h := range ic.History {
+				hh = append(hh, string(h.Raw))
+			}
+			d["history"] = hh
+		}
+		for k, v := range extra {
+			d[k] = v
+		}
+		return d
+	}
+	compareIso(e, c, ic, detail, fsv, fs, hsv, hs)
 }
 
 // bindDiffSources names the binding sources (query, header, cookie, form, body) whose result
@@ -1474,6 +1599,51 @@ func runIsolation(e *ev.Env) {
 		}
 		e.Stat("equal_length_found", 1)
 		ic.Probe = probeSpec{Route: 4, Class: ckNone, Variant: "encoded-body", Raw: mk("/probeplain", probeBody)}
+		judgeIso(e, c, ic)
+	})
+	// directed family: redirect state that is started and abandoned (WithInput / With, then a normal
+	// answer or a failing Back()), then a probe that redirects with its own input
+	e.Cases("withinput", e.N(300, 8000), func(c *ev.Case) {
+		r := c.R
+		ic := isoCase{Cfg: isoCfg{Custom: r.Chance(1, 3), PassLocals: r.Bool(), Immutable: r.Chance(1, 4)}}
+		ic.Cfg.widen(r)
+		for i := r.Intn(2); i > 0; i-- {
+			ic.History = append(ic.History, genHistoryReq(r.Split(), "h"+strconv.Itoa(len(ic.History))+"x", ic.Cfg.Custom))
+		}
+		for i := r.Range(1, 2); i > 0; i-- {
+			tag := "h" + strconv.Itoa(len(ic.History)) + "x"
+			q := &reqSpec{Host: gen.Pick(r, hosts), Method: gen.Pick(r, []string{"GET", "POST"})}
+			q.Target = "/redirfail/" + tag + "?status=303&with=1&mode=" + gen.Pick(r, []string{"return", "return", "back", "err"}) + "&password=" + tag + "s3cret"
+			if q.Method == "POST" {
+				q.CType, q.Body = "application/x-www-form-urlencoded", []byte("user="+tag+"&password="+tag+"s3cret")
+			}
+			ic.History = append(ic.History, wreq{Kind: "redirect-abandoned-with-input", Raw: q.raw(), Cookie: ckNone})
+		}
+		q := &reqSpec{Host: gen.Pick(r, hosts), Method: "POST", Target: "/probeplain?variant=RI", CType: "application/x-www-form-urlencoded", Body: []byte("name=PRBinput")}
+		ic.Probe = probeSpec{Route: 4, Class: ckNone, Variant: "RI", Raw: q.raw()}
+		judgeIso(e, c, ic)
+	})
+	// directed family: a handler edits the maps / slices the accessors handed to it, then the probe
+	// asks the same accessors
+	e.Cases("mutate", e.N(200, 5000), func(c *ev.Case) {
+		r := c.R
+		ic := isoCase{Cfg: isoCfg{Custom: r.Chance(1, 3), PassLocals: r.Bool(), Immutable: r.Chance(1, 3)}}
+		ic.Cfg.widen(r)
+		for i := r.Range(1, 3); i > 0; i-- {
+			tag := "h" + strconv.Itoa(len(ic.History)) + "x"
+			q := &reqSpec{Host: gen.Pick(r, hosts), Target: "/mutate/" + tag + gen.Pick(r, []string{"", "", "?page=3"})}
+			decorate(r.Split(), q)
+			ic.History = append(ic.History, wreq{Kind: "mutate-returned-values", Raw: q.raw(), Cookie: ckNone})
+		}
+		q := &reqSpec{Host: gen.Pick(r, hosts), Target: gen.Pick(r, []string{"/probeplain", "/probeplain", "/probe/PRBa/PRBb/PRBc", "/probeplain?own=1"})}
+		decorate(r.Split(), q)
+		ic.Probe = probeSpec{Route: 4, Class: ckNone, Raw: q.raw()}
+		judgeIso(e, c, ic)
+	})
+	// directed family: the app mounted into a net/http server through middleware/adaptor
+	e.Cases("adaptor", e.N(300, 8000), func(c *ev.Case) {
+		ic := genIsoCase0(c.R)
+		ic.Adaptor = true
 		judgeIso(e, c, ic)
 	})
 	if e.Only == "" {
